@@ -4,3 +4,5 @@ import AdeptModel.StackProto
 import AdeptModel.RecBuf
 import AdeptModel.RecBufSites
 import AdeptModel.Storage
+import AdeptModel.Views
+import AdeptModel.Interp
